@@ -184,7 +184,7 @@ func (s *Solver) define(t *Term) {
 			stack = append(stack, item{x.c, false}, item{x.b, false}, item{x.a, false})
 			continue
 		}
-		if x.op == OpUF {
+		if x.op == OpUF && x.name != "is_int" {
 			key := "uf:" + x.name
 			if _, ok := s.declared[key]; !ok {
 				s.declared[key] = x.sort
@@ -302,7 +302,7 @@ func (s *Solver) Model() (Model, error) {
 	m := Model{}
 	var names []string
 	for n, so := range s.declared {
-		if strings.HasPrefix(n, "uf:") || so == SReal {
+		if strings.HasPrefix(n, "uf:") || (so == SReal && !strings.HasSuffix(n, "$u") && !strings.HasSuffix(n, "$s")) {
 			continue
 		}
 		names = append(names, n)
@@ -395,6 +395,17 @@ func parseModel(txt string, m Model) {
 			case strings.HasPrefix(val, "#b"):
 				v, _ := strconv.ParseUint(val[2:], 2, 64)
 				m[name] = v
+			case strings.HasSuffix(name, "$u") || strings.HasSuffix(name, "$s"):
+				// integer-valued real companion of a real-backed sample: also the sample's value
+				if f, err := strconv.ParseFloat(val, 64); err == nil && f == float64(int64(f)) {
+					m[name[:len(name)-2]] = uint64(int64(f)) & 0xffff
+				}
+			}
+		} else if toks[k] == "(" && k+6 < len(toks) && toks[k+2] == "(" && toks[k+3] == "-" && toks[k+5] == ")" && (strings.HasSuffix(strings.Trim(toks[k+1], "|"), "$s")) {
+			// ( name (- 5.0) )
+			name := strings.Trim(toks[k+1], "|")
+			if f, err := strconv.ParseFloat(toks[k+4], 64); err == nil && f == float64(int64(f)) {
+				m[name[:len(name)-2]] = uint64(-int64(f)) & 0xffff
 			}
 		} else if toks[k] == "(" && k+7 < len(toks) && toks[k+2] == "(" && toks[k+3] == "_" && strings.HasPrefix(toks[k+4], "bv") {
 			// ( name (_ bvN w) )
